@@ -370,7 +370,7 @@ def units():
                      "result == status_after(old.program_retval, any_fail(alg_type, algorithms), any_warn(alg_type, algorithms))",
                      "result == 0 or result == 2 or result == 3"],
             use=["fold_is_worst(alg_type, algorithms, old.program_retval)"],
-            loops={1: dict(invariant=["program_retval == fold_algs(alg_type, algorithms[:_k], old.program_retval)",
+            loops={1: dict(header='for algorithm in algorithms', invariant=["program_retval == fold_algs(alg_type, algorithms[:_k], old.program_retval)",
                                       "program_retval == 0 or program_retval == 2 or program_retval == 3"],
                            types={'algorithm': 'str'}, modifies=['unknown_algs'])}),
             harness=None))
@@ -380,7 +380,7 @@ def units():
             requires=["program_retval == 0 or program_retval == 2 or program_retval == 3"],
             raises={},
             ensures=[SPEC.replace('is_blank(alg_name)', 'is_blank(old.alg_name)'), "result == 0 or result == 2 or result == 3", SPEC_CALL],
-            loops={2: dict(invariant=["implies(level == 'fail', has_level(texts, 'fail') == (has_level(at_entry.texts, 'fail') or has_some(alg_desc[idx][:_k])))",
+            loops={2: dict(header='for t in alg_desc[idx]', invariant=["implies(level == 'fail', has_level(texts, 'fail') == (has_level(at_entry.texts, 'fail') or has_some(alg_desc[idx][:_k])))",
                                       "implies(level == 'warn', has_level(texts, 'warn') == (has_level(at_entry.texts, 'warn') or has_some(alg_desc[idx][:_k])))",
                                       "implies(level != 'fail', has_level(texts, 'fail') == has_level(at_entry.texts, 'fail'))",
                                       "implies(level != 'warn', has_level(texts, 'warn') == has_level(at_entry.texts, 'warn'))"],
